@@ -82,8 +82,10 @@ def worker(kp, job):
     seed, idx = job
     rng = random.Random(seed * 179424673 + idx)
     cls = ['core', 'core', 'core', 'other', 'other', 'mixed'][idx % 6]
+    # every fourth core document lets a spine end before the others (its terminator alone on a row)
+    early = 0.35 if (cls == 'core' and idx % 4 == 1) else 0.0
     g = docs.gen_doc(rng, kern_only=(cls != 'mixed'), core=(cls in ('core', 'mixed')), max_spines=3, measures=rng.randint(2, 4),
-                     comments=(idx % 2 == 0), mid_signatures=(cls == 'other'), splits=True, rest_in_chord=0)
+                     comments=(idx % 2 == 0), mid_signatures=(cls == 'other'), splits=True, rest_in_chord=0, early_end=early)
     text = g.text
     bad = docs.bad_cells(kp, text)
     try:
@@ -154,7 +156,7 @@ def run(chk):
     full = chk.tier == 'thorough' or bool(b.drift) or not b.proof_ok
     n = core.budget(chk, full, 90, 480)
     chk.rule = ('generated **kern documents, half in the claimed core class (signatures before the first measure, splits '
-                're-joined before the next barline), the rest with mid-score signature changes, splits left open across barlines, '
+                're-joined before the next barline; some with a spine that ends before the others), the rest with mid-score signature changes, splits left open across barlines, '
                 'or non-kern spines beside the kern ones, x EVERY measure range; non-trivial = distinct (text, a, b)')
     results = engine.pmap(worker, [(chk.seed, i) for i in range(n)])
     engine.settle(chk, results, model)
